@@ -210,3 +210,183 @@ pub fn replay_limits(rest: &[String]) -> anyhow::Result<()> {
     }
     out.finish()
 }
+
+fn zero_lines(j: &mut J) {
+    match j {
+        J::Object(m) => {
+            if m.contains_key("k") {
+                m.insert("line".to_owned(), json!(0));
+            }
+            for (_, v) in m.iter_mut() {
+                zero_lines(v);
+            }
+        }
+        J::Array(a) => {
+            for v in a.iter_mut() {
+                zero_lines(v);
+            }
+        }
+        _ => {}
+    }
+}
+
+/// The value the embedder binds to `hostv` (and stores, inside a tuple, as extra_value):
+/// [1, [2, 3], "host"].  `pre`/`post` are the statements Sem executes in its place.
+fn host_pre_post() -> (J, J) {
+    use print::str_to_cp;
+    let mut pre = json!([{"k": "assign", "tg": {"k": "var", "n": "hostv"}, "e": {"k": "list", "items": [
+        {"k": "int", "v": 1}, {"k": "list", "items": [{"k": "int", "v": 2}, {"k": "int", "v": 3}]}, {"k": "str", "s": str_to_cp("host")}]}}]);
+    let mut post = json!([{"k": "expr", "e": {"k": "call", "f": {"k": "var", "n": "emit"}, "args": [
+        {"k": "tuple", "items": [{"k": "var", "n": "hostv"}, {"k": "str", "s": str_to_cp("x")}]}], "named": [],
+        "star": {"k": "absent"}, "starstar": {"k": "absent"}}}]);
+    zero_lines(&mut pre);
+    zero_lines(&mut post);
+    (pre, post)
+}
+
+/// One run of `src` with `hostv` bound by the embedder and extra_value set, under a GC mode.
+/// The encoding of extra_value after the run is appended to the transcript.
+pub fn run_hosted(src: &str, globals: &starlark::environment::Globals, gc: starlark::verif::GcMode) -> (run::Outcome, u64, u64, Vec<(i64, i64)>) {
+    use starlark::environment::Module;
+    use starlark::eval::Evaluator;
+    use starlark::syntax::AstModule;
+    use starlark::values::list::AllocList;
+    run::OUT.with(|o| o.borrow_mut().clear());
+    let ast = match AstModule::parse("prog.star", src.to_owned(), &run::dialect()) {
+        Ok(a) => a,
+        Err(e) => {
+            let (_, line, msg) = run::err_of(&e);
+            return (run::Outcome { out: vec![], kind: "parse".to_owned(), line, msg, parse_error: true }, 0, 0, vec![]);
+        }
+    };
+    let mut gcs = Vec::new();
+    let (r, sp, col) = Module::with_temp_heap(|module| {
+        let heap = module.heap();
+        let inner = heap.alloc(AllocList([2, 3]));
+        let hostv = heap.alloc(AllocList([heap.alloc(1), inner, heap.alloc("host")]));
+        module.set("hostv", hostv);
+        module.set_extra_value(heap.alloc((hostv, "x")));
+        starlark::verif::set_gc_mode(gc);
+        starlark::verif::start_recording();
+        let r = {
+            let mut eval = Evaluator::new(&module);
+            match eval.eval_module(ast, globals) {
+                Ok(_) => Ok(()),
+                Err(e) => Err(run::err_of(&e)),
+            }
+        };
+        let evs = starlark::verif::take_events();
+        let mut before = 0;
+        for e in &evs {
+            if e.a == "gc_begin" {
+                before = e.x;
+            }
+            if e.a == "gc_end" {
+                gcs.push((before, e.x));
+            }
+        }
+        let (sp, col) = starlark::verif::gc_counters();
+        starlark::verif::set_gc_mode(starlark::verif::GcMode::Default);
+        if let Some(x) = module.extra_value() {
+            let e = run::encode(x, &mut Vec::new());
+            run::OUT.with(|o| o.borrow_mut().push(e));
+        }
+        (r, sp, col)
+    });
+    let out = run::OUT.with(|o| std::mem::take(&mut *o.borrow_mut()));
+    let o = match r {
+        Ok(()) => run::Outcome { out, kind: String::new(), line: 0, msg: String::new(), parse_error: false },
+        Err((kind, line, msg)) => run::Outcome { out, kind, line, msg, parse_error: false },
+    };
+    (o, sp, col, gcs)
+}
+
+fn parse_gc(s: &str) -> starlark::verif::GcMode {
+    use starlark::verif::GcMode;
+    if s == "never" {
+        GcMode::Never
+    } else if s == "default" {
+        GcMode::Default
+    } else if let Some(k) = s.strip_prefix("every:") {
+        GcMode::Every(k.parse().unwrap_or(1))
+    } else if let Some(l) = s.strip_prefix("at:") {
+        GcMode::At(l.split(',').filter_map(|x| x.parse().ok()).collect())
+    } else {
+        GcMode::Default
+    }
+}
+
+/// vh record gcprog <out.ndjson> --seed S --n N --stmts K : generate GC-flavoured programs, run
+/// each once with collection disabled; records {id, ast (pre+prog+post, for Sem), prog, src, out, err, safepoints}
+pub fn record_gcprog(rest: &[String]) -> anyhow::Result<()> {
+    let mut out = util::NdWriter::create(&rest[0])?;
+    let seed = util::opt_u64(rest, "--seed", 1);
+    let n = util::opt_u64(rest, "--n", 50);
+    let stmts = util::opt_u64(rest, "--stmts", 8) as usize;
+    let globals = run::globals();
+    let (pre, post) = host_pre_post();
+    let mut statics = 0;
+    for i in 0..n {
+        let mut rng = util::Rng(seed.wrapping_mul(7_000_003).wrapping_add(i));
+        let k = 4 + rng.below(stmts as u64) as usize;
+        let mut ast = {
+            let mut g = gen::Gen::new(&mut rng);
+            g.module_gc(k)
+        };
+        let src = print::module(&mut ast);
+        let r = util::catch(|| run_hosted(&src, &globals, starlark::verif::GcMode::Never));
+        let (o, sp, _col, _) = match r {
+            Ok(x) => x,
+            Err(p) => (run::Outcome { out: vec![], kind: "panic".to_owned(), line: 0, msg: p, parse_error: false }, 0, 0, vec![]),
+        };
+        if is_static(&o.kind, &o.msg) {
+            statics += 1;
+            continue;
+        }
+        // on failure the post statement does not run in Sem either (the module failed)
+        let mut full = pre.as_array().unwrap().clone();
+        full.extend(ast.as_array().unwrap().iter().cloned());
+        full.extend(post.as_array().unwrap().iter().cloned());
+        // the embedder appends extra_value even after a failure; Sem's post only runs on success:
+        let mut outv = o.out.clone();
+        if !o.kind.is_empty() {
+            outv.pop();
+        }
+        out.write(&json!({"id": format!("g{}p{}", seed, i), "ast": full, "src": src, "out": outv,
+            "err": {"kind": o.kind, "line": o.line}, "msg": o.msg, "safepoints": sp}))?;
+    }
+    out.finish()?;
+    println!("{}", json!({"programs": n, "static_rejected": statics}));
+    Ok(())
+}
+
+/// vh replay gc <cases.ndjson> <out.ndjson> [--progress FILE]: case {"id","src","sched":"every:2"|...}
+pub fn replay_gc(rest: &[String]) -> anyhow::Result<()> {
+    let cases = util::read_ndjson(&rest[0])?;
+    let mut out = util::NdWriter::create(&rest[1])?;
+    let progress = util::opt(rest, "--progress").map(|s| s.to_owned());
+    let globals = run::globals();
+    for c in cases {
+        let id = c["id"].as_str().unwrap_or("?").to_owned();
+        let sched = c["sched"].as_str().unwrap_or("default").to_owned();
+        if let Some(p) = &progress {
+            std::fs::write(p, format!("{} {}", id, sched))?;
+        }
+        let src = c["src"].as_str().unwrap_or("").to_owned();
+        let r = util::catch(|| run_hosted(&src, &globals, parse_gc(&sched)));
+        let rec = match r {
+            Ok((o, sp, col, gcs)) => {
+                let mut outv = o.out.clone();
+                if !o.kind.is_empty() {
+                    outv.pop();
+                }
+                json!({"id": id, "sched": sched, "out": outv, "err": {"kind": o.kind, "line": o.line}, "msg": o.msg,
+                       "safepoints": sp, "collections": col, "gcs": gcs})
+            }
+            Err(p) => json!({"id": id, "sched": sched, "out": [], "err": {"kind": "panic", "line": 0}, "msg": p, "safepoints": 0, "collections": 0, "gcs": []}),
+        };
+        out.write(&rec)?;
+        out.flush()?; // a crash must not lose what was already observed
+    }
+    out.finish()
+}
